@@ -119,3 +119,17 @@ Example C18_example :
   forallb (fun o => negb (touches 7%N o)) ops2 = true /\
   stream_of 7%N (streams (run (run (init 2) ops1) (OSub 7%N 2 :: ops2))) = [2%N; 3%N; 4%N; 5%N].
 Proof. vm_compute. split; reflexivity. Qed.
+
+(* non-vacuity of the history-level range theorems on a buffer that HAS been trimmed: size 2, 103 writes
+   (the trim fires at the 103rd); a request for the last 2 lines is served in full with the two newest lines,
+   and an oversized request is clamped to what the buffer still holds (3 lines) *)
+Example C18_range_example :
+  let ops := map (fun i => OWrite (N.of_nat i)) (seq 1 103) in
+  let s := run (init 2) ops in
+  length (buf s) = 3 /\
+  (0 <= 2 <= Z.of_nat (Nat.min (length (written ops)) 2))%Z /\
+  get_range (buf s) 2 0 = [102%N; 103%N] /\
+  get_range (buf s) 2 1 = [102%N] /\
+  get_range (buf s) 1000 0 = [101%N; 102%N; 103%N] /\
+  holds_C18 (observe 2 (ops ++ [ORange 2 0; OSub 5%N 1; OWrite 7%N]) [5%N]) = true.
+Proof. vm_compute. repeat split; try reflexivity; discriminate. Qed.
